@@ -186,7 +186,7 @@ func (e *Env) Predict(sel map[string]bool, cfg BuildCfg) (*Pred, error) {
 		case forced:
 			p.Class[l] = MustExec
 			p.Reason[l] = why
-		case e.Memo[st.LooseKey] == "ok" && e.anyUnsure(st.DirectDeps):
+		case e.Memo[st.LooseKey] == "ok" && e.anyUnsureThrough(states, st.DirectDeps, 0):
 			// a dependency's stored result was left by a cache-disabled build: the flavour of
 			// its output hash (and with it this target's key) is not fixed by the documented rules
 			p.Class[l] = MayExec
@@ -310,6 +310,12 @@ func (e *Env) Judge(p *Pred, o *Obs, cfg BuildCfg, extCause string) []Violation 
 		}
 		vs = append(vs, Violation{k, k + " " + hangSite(o.Res.Dump), "grog did not exit within the cap"})
 		return vs
+	}
+	if !p.TimeoutPossible && strings.Contains(o.Res.Stdout+o.Res.Stderr, "WaitDelay expired before I/O complete") {
+		// grog gives a finished command one second (wall clock) to have its output drained; on a
+		// machine loaded far beyond its cores the drain itself can take longer, and grog then fails
+		// a command that exited 0. Nothing here injects that: not judged, like a load-induced timeout.
+		return []Violation{{"load-timeout", "load-timeout", "a command without a background child had its output pipes open for longer than grog's one-second grace (machine load)"}}
 	}
 	if !p.TimeoutPossible && strings.Contains(o.Res.Stdout+o.Res.Stderr, "timeout after ") {
 		// A `timeout` attribute is a wall-clock deadline: on a loaded machine a command that
@@ -631,6 +637,25 @@ func (e *Env) depRelation(l string, st *spec.TState) string {
 	}
 	sort.Strings(ks)
 	return "via=" + strings.Join(ks, "+")
+}
+
+// anyUnsureThrough: like anyUnsure, and also through dependencies without outputs: such a target
+// exposes its own key as its "output", so whatever is not fixed about its key (a dependency of
+// its own recorded by a cache-disabled build) is not fixed about its dependants' keys either.
+func (e *Env) anyUnsureThrough(states map[string]*spec.TState, deps []string, depth int) bool {
+	for _, d := range deps {
+		if e.Unsure[d] {
+			return true
+		}
+		t := e.Spec.Target(d)
+		if t == nil || len(t.AllOuts()) > 0 || states[d] == nil || depth > 64 {
+			continue
+		}
+		if e.anyUnsureThrough(states, states[d].DirectDeps, depth+1) {
+			return true
+		}
+	}
+	return false
 }
 
 func (e *Env) anyUnsure(deps []string) bool {
